@@ -274,7 +274,14 @@ def policy_stream(ctx, prop, kinds, npol, nev, arches=None, defects=None, le_cho
             meta[cid] = dict(kind=kind, arch=an, defect=defect, le=le, groups=len(pol["groups"]))
             key = kind + ("/" + defect if defect else "")
             dist[key] = dist.get(key, 0) + 1
-            lines.append("P %s %d %s %s" % (cid, le, an, PolicyGen.tokens(pol)))
+            atok = an
+            r = rng.random()
+            if r < 0.12 and an in arches_tbl and "NATIVE" in arches_tbl and arches_tbl["NATIVE"]["id"] == arches_tbl[an]["id"] and arches_tbl["NATIVE"]["mask"] == arches_tbl[an]["mask"]:
+                atok = "NATIVE"      # the library resolves the architecture itself (public API path)
+            elif r < 0.24:
+                atok = "%s>%s" % (rng.choice([a for a in PolicyGen.TABLE_ARCHES if a != an]), an)   # same value assembled for another architecture first
+            meta[cid]["arch_token"] = atok
+            lines.append("P %s %d %s %s" % (cid, le, atok, PolicyGen.tokens(pol)))
             if nev:
                 lines += pg.events(pol, nev, foreign_share=foreign_share, x32_share=x32_share)
         for (cid, line, evs, m) in (extra_cases(pg, rng) if extra_cases else []):
